@@ -3,6 +3,7 @@ Core-only so that it links as a `lean_exe`. -/
 import OsmoVerif.Model.DrvNum
 import OsmoVerif.Model.DrvMath
 import OsmoVerif.Model.DrvMint
+import OsmoVerif.Model.DrvGamm4
 import OsmoVerif.Model.DrvIncentives
 import OsmoVerif.Model.DrvRouter
 import OsmoVerif.Model.DrvTwap
@@ -48,6 +49,7 @@ def step (st : St) (line : String) : St × String :=
   | "twap" :: op :: args => let (x, o) := Twap.stepTwap st.twap op args; ({ st with twap := x }, o)
   | "router" :: op :: args => let (x, o) := Router.stepRouter st.router op args; ({ st with router := x }, o)
   | "incentives" :: op :: args => let (x, o) := Incentives.stepIncentives st.incentives op args; ({ st with incentives := x }, o)
+  | "gammmath" :: op :: args => (st, GammMath.stepGammMath op args)
   | "mint" :: op :: args => let (m, o) := Mint.stepMint st.mint op args; ({ st with mint := m }, o)
   | _ => (st, "bad-op")
 
